@@ -107,6 +107,12 @@ impl AsmLine {
                 s += writer.write("\n".as_bytes())?;
             }
             AsmLine::Instruction(inst) => {
+                // verification hook: make the 'protected' mark of an instruction (explicit
+                // load / store / strobe / csleep code the optimizer must keep) visible in the text
+                #[cfg(steux_cc6502_verif)]
+                if inst.protected {
+                    s += writer.write(";@P\n".as_bytes())?;
+                }
                 if cycles {
                     let c = if let Some(alt) = inst.cycles_alt {
                         format!("\t; {}/{}", inst.cycles, alt)
